@@ -44,12 +44,6 @@ class RichMrgnEditor:
         for i, loc in enumerate(
             sorted(unique_locations_to_add, key=lambda x: x.index is None)
         ):
-            if not allocable_indices:
-                self.log.error(
-                    f"No more allocable indices left.  Have we run out of locations?  "
-                    f"{i + 1} remaining locations we cannot allocate."
-                )
-                break
             if loc.index is not None:
                 if loc.index not in loc_by_id:
                     new_loc = self._build_new_location_with_index(loc, loc.index)
@@ -68,6 +62,13 @@ class RichMrgnEditor:
                         f"Attempted replacement: {loc}"
                     )
             else:
+                # only a location that needs a new index can run out of indices
+                if not allocable_indices:
+                    self.log.error(
+                        f"No more allocable indices left.  Have we run out of locations?  "
+                        f"{i + 1} remaining locations we cannot allocate."
+                    )
+                    break
                 new_loc = self._build_new_location_with_index(
                     loc, allocable_indices.pop()
                 )
